@@ -202,3 +202,65 @@ def curve_preserved(key, final, x0: Real, x1: Real, x2: Real, x3: Real, x4: Real
     known = Or(finding_H(key, x), finding_H2(key, x, T_min, T_max),
                finding_H3(key, final, x, T_min, T_max, T_min_seg, T_max_seg))
     check("C12.curve_preserved", before == after, finding="C12-H", unless=known)
+
+
+# ----------------------------------------------------------------------------- uncertainty
+
+OPAQUE = {
+    # lag-1 autocorrelation of the residuals: numpy internals (np.correlate / np.var) are out of reach.
+    # Assumed contract: for a non-constant residual vector the biased estimator lies strictly inside (-1, 1).
+    "opendsm/eemeter/models/daily/optimize_results.py::acf": "acf_effect",
+}
+
+
+def acf_effect(x, lag_n=None, moving_mean_std=False):
+    r1 = fresh_real("lag1")
+    assume(And(0 - 1 < r1, r1 < 1))
+    return [1, r1]
+
+
+@harness("C12.unc", prop="C12")
+def unc(N: Int, num_coeffs: Int, alpha: Real, resid: Vec):
+    """f_unc is a non-negative finite number: the degrees of freedom handed to the t-quantile are >= 1."""
+    assume(And(N >= 1, 1 <= num_coeffs, num_coeffs <= 7, 0 < alpha, alpha < 1))
+    res = new_object(OR, N=N, num_coeffs=num_coeffs, resid=resid, settings=new_object(None, uncertainty_alpha=alpha))
+    res._prediction_uncertainty()
+    check("C12.unc.dof", res.DoF >= 1)
+    check("C12.unc.nonneg", res.f_unc >= 0)
+
+
+# ----------------------------------------------------------------------------- the constructor composes them
+
+OPAQUE["opendsm/eemeter/models/daily/utilities/base_model.py::get_T_bnds"] = "get_T_bnds_effect"
+
+
+def get_T_bnds_effect(T, settings):
+    """Assumed contract of get_T_bnds (np.min / np.max / np.partition are out of reach): it returns the limits of
+    the vector it is GIVEN.  The ghost fields on `settings` carry those limits and the vector they belong to."""
+    check("C12.limits.of_fitted_days", is_same(T, settings.ghost_T))
+    return [[settings.ghost_T_min, settings.ghost_T_max], [settings.ghost_T_min_seg, settings.ghost_T_max_seg]]
+
+
+@harness("C12.init", prop="C12", cases=[{"key": k} for k in KEYS])
+def init_composes(key, x0: Real, x1: Real, x2: Real, x3: Real, x4: Real, x5: Real, x6: Real,
+                  T_min: Real, T_max: Real, T_min_seg: Real, T_max_seg: Real, alpha: Real,
+                  T: Vec, model: Vec, weight: Vec, resid: Vec, mean_loss: Real, TSS: Real, time_elapsed: Real):
+    """The real constructor of OptimizedResult (a) records the temperature limits of the days it is given and
+    (b) leaves x / coef_id / model_key / named_coeffs exactly as `refined` (used by the other obligations)."""
+    assume(And(T_min <= T_min_seg, T_min_seg <= T_max_seg, T_max_seg <= T_max, 0 < alpha, alpha < 1))
+    x = raw_vector(key, x0, x1, x2, x3, x4, x5, x6)
+    settings = new_object(None, uncertainty_alpha=alpha, ghost_T=T, ghost_T_min=T_min, ghost_T_max=T_max,
+                          ghost_T_min_seg=T_min_seg, ghost_T_max_seg=T_max_seg)
+    real = OR(np_array(x), None, list(COEF_IDS[key]), 2.0, 1.0, T, model, weight, resid, None, mean_loss, TSS,
+              True, "ok", 10, time_elapsed, settings)
+    ref = refined(key, True, x, T_min, T_max, T_min_seg, T_max_seg)
+    check("C12.limits.recorded", And(real.T_min == T_min, real.T_max == T_max, real.T_min_seg == T_min_seg,
+                                     real.T_max_seg == T_max_seg))
+    check("C12.init.coef_id", real.coef_id == ref.coef_id)
+    check("C12.init.model_key", real.model_key == ref.model_key)
+    same_len = length(real.x) == length(ref.x)
+    check("C12.init.x.len", same_len)
+    if same_len:
+        check("C12.init.x", And(*[real.x[i] == ref.x[i] for i in range(length(ref.x))]))
+    check("C12.init.named.type", real.named_coeffs.model_type == ref.named_coeffs.model_type)
+    check("C12.init.f_unc", real.f_unc >= 0)
